@@ -346,6 +346,7 @@ func (m *model) canon(squeeze bool) string {
 type histParams struct {
 	minStates int    // stop only after this many persisted states ...
 	minSize   uint64 // ... and this file size
+	maxSize   uint64 // stop anyway at this size (0 = no limit)
 	maxOps    int
 	persistW  int  // weight of explicit persist among the operations
 	reopen    bool // include intermediate clean close / reopen
@@ -1043,7 +1044,8 @@ func (h *hist) reopen() {
 func (h *hist) run() {
 	h.createTable()
 	for op := 0; op < h.p.maxOps; op++ {
-		if len(h.states) >= h.p.minStates && h.db.Store.Size() >= h.p.minSize {
+		if size := h.db.Store.Size(); len(h.states) >= h.p.minStates && size >= h.p.minSize ||
+			h.p.maxSize > 0 && size >= h.p.maxSize {
 			break
 		}
 		w := h.uni("op", 100)
